@@ -115,6 +115,7 @@ def ensure_facts(config='q'):
             'CARGO_NET_OFFLINE': 'true',
             'RSM_FACTS_OUT': out + '.part',
             'RSM_FACTS_FOCUS': FOCUS,
+            'RSM_FACTS_THREADS': os.environ.get('RSM_FACTS_THREADS', '8'),
             'RSM_FACTS_TREE_HASH': th,
             'RSM_FACTS_FEATURES': CONFIGS[config],
         })
@@ -140,7 +141,7 @@ def ensure_facts(config='q'):
         # keep only the two newest fact files of this config
         olds = sorted((f for f in os.listdir(CACHE) if f.startswith(f'facts-{config}-') and f.endswith('.jsonl')),
                       key=lambda f: os.path.getmtime(os.path.join(CACHE, f)))
-        for f in olds[:-2]:
+        for f in olds[:-int(os.environ.get('VERIF_CACHE_KEEP', '3')):]:
             os.remove(os.path.join(CACHE, f))
         dt = time.time() - t0
         _log(f"done in {dt:.0f}s: {hdr['n_bodies']} bodies, {hdr['n_focus']} with full facts")
